@@ -845,6 +845,13 @@ func (dn *dirnode) flush(ctx context.Context, names []string, opts flushOpts) er
 						var err error
 						loc, err = dn.fs.LocalLocator(seg.locator)
 						if err != nil {
+							// Block writes already started
+							// by this flush rely on the
+							// caller's locks: don't return
+							// (and let the caller unlock)
+							// until they are done.
+							cg.Cancel()
+							cg.Wait()
 							return err
 						}
 						localLocator[seg.locator] = loc
